@@ -7,11 +7,16 @@ import common
 from common import w_str, r_str
 
 DECLS = {
-    'arithmetic': ['(declare-const x Int)', '(declare-fun y () Real)', '(define-fun z () Int 3)', '(define-sort S () Real)'],
-    'bv': ['(declare-const b (_ BitVec 8))', '(declare-fun c () (_ BitVec 4))', '(define-fun d () (_ BitVec 2) #b01)'],
+    'arithmetic': ['(declare-const x Int)', '(declare-fun y () Real)', '(define-fun z () Int 3)', '(define-sort S () Real)',
+                   # the sort as argument sort, parameter sort, in a recursive definition (fix F43)
+                   '(declare-fun fa (Int) Bool)', '(define-fun ga ((xa Real)) Bool true)', '(define-fun-rec ra ((xa Int)) Bool true)'],
+    'bv': ['(declare-const b (_ BitVec 8))', '(declare-fun c () (_ BitVec 4))', '(define-fun d () (_ BitVec 2) #b01)',
+           '(declare-fun fb ((_ BitVec 8)) Bool)', '(define-fun gb ((xb (_ BitVec 3))) Bool true)'],
     'datatypes': ['(declare-datatype D ((k)))', '(declare-datatypes ((E 0)) (((m))))'],
-    'fp': ['(declare-const f Float32)', '(declare-const r RoundingMode)', '(declare-fun g () (_ FloatingPoint 5 11))'],
-    'strings': ['(declare-const s String)', '(declare-fun t () (Seq Int2))', '(define-fun u () String "a")'],
+    'fp': ['(declare-const f Float32)', '(declare-const r RoundingMode)', '(declare-fun g () (_ FloatingPoint 5 11))',
+           '(declare-fun ff ((_ FloatingPoint 8 24)) Bool)', '(define-fun gf ((xf RoundingMode)) Bool true)'],
+    'strings': ['(declare-const s String)', '(declare-fun t () (Seq Int2))', '(define-fun u () String "a")',
+                '(declare-fun fs (String) Bool)', '(declare-const rl RegLan)', '(define-fun gs ((xs (Seq Int2))) Bool true)'],
 }
 NEUTRAL = ['(set-logic ALL)', '(declare-const p Bool)', '(assert p)', '(check-sat)', '(declare-sort U 0)', '(declare-fun q (U) Bool)']
 
@@ -181,7 +186,7 @@ def run(ctx):
         if bad:
             ctx.disagree('extraction vs vm_compute', differences=bad)
     ctx.assumptions += ['exact option strings (argparse prefix abbreviations are not modelled)',
-                        '"declares something of a theory" = a declare-const/declare-fun/define-fun/define-sort whose (result) sort mentions the theory, or a datatype declaration']
+                        '"declares something of a theory" = a declaration or definition command in which a sort of the theory occurs (as sort of the symbol, argument sort, parameter sort or field sort), or a datatype declaration']
 
 
 def replay(d):
